@@ -56,6 +56,7 @@ package log
 //@ spec fun enable(r LevelRange, l Level) bool = r.MinLevel.code <= l.code && l.code < r.MaxLevel.code
 
 //@ func (LevelRange).Enable
+//@   synchronous[C20]
 //@   modifies nothing
 //@   ensures[C01:half-open] result == enable(c, l)
 //@   replay min = c.MinLevel.code; max = c.MaxLevel.code; code = l.code
@@ -318,16 +319,19 @@ package log
 //@ spec rec fun fanoutW(c *AppenderRefs, k int, l Level, r int, n int, s string, base Trace) Trace = k <= 0 ? base : (enable(c.AppenderRefs[k-1].Level, l) ? tsnoc(fanoutW(c, k-1, l, r, n, s, base), 2, ifval(c.AppenderRefs[k-1].Appender), r, n, s) : fanoutW(c, k-1, l, r, n, s, base))
 
 //@ func (*AppenderRef).Append
+//@   synchronous[C20]
 //@   requires c != nil && c.Appender != nil && e != nil
 //@   modifies dlv
 //@   ensures[C01:ref-filter] dlv == (enable(c.Level, e.Level) ? tsnoc(old(dlv), 1, ifval(c.Appender), e, e.Level.code, "") : old(dlv))
 
 //@ func (*AppenderRef).Write
+//@   synchronous[C20]
 //@   requires c != nil && c.Appender != nil
 //@   modifies dlv
 //@   ensures[C01,C12:ref-write] dlv == tsnoc(old(dlv), 2, ifval(c.Appender), sref(b), len(b), content(b))
 
 //@ func (*AppenderRefs).sendToAppenders
+//@   synchronous[C20]
 //@   requires c != nil && e != nil && wfRefs(c)
 //@   modifies dlv
 //@   ensures[C01:fanout] dlv == fanout(c, len(c.AppenderRefs), e, e.Level, old(dlv))
@@ -335,6 +339,7 @@ package log
 //@   loop 1 invariant[C01:prefix] dlv == fanout(c, $k, e, e.Level, old(dlv))
 
 //@ func (*AppenderRefs).writeToAppenders
+//@   synchronous[C20]
 //@   requires c != nil && wfRefs(c)
 //@   modifies dlv
 //@   ensures[C01:fanout-raw] dlv == fanoutW(c, len(c.AppenderRefs), l, sref(b), len(b), content(b), old(dlv))
@@ -344,17 +349,20 @@ package log
 // ---- C01 / C03 / C20: loggers and appenders ---------------------------------------------------------
 
 //@ func (*Event).Reset
+//@   synchronous[C20]
 //@   requires e != nil
 //@   modifies *e
 //@   ensures[C03:reset] e.Level == NoneLevel && e.Tag == "" && e.Fields == nil && e.CtxFields == nil && e.File == "" && e.Line == 0 && e.CtxString == ""
 
 //@ func PutEvent
+//@   synchronous[C20]
 //@   requires e != nil
 //@   modifies *e, pooled[e]
 //@   ensures[C03:released] pooled[e]
 //@   ensures[C03:reset] e.Level == NoneLevel && e.Tag == "" && e.Fields == nil && e.CtxFields == nil && e.File == "" && e.Line == 0 && e.CtxString == ""
 
 //@ func (*SyncLogger).Append
+//@   synchronous[C20]
 //@   requires c != nil && e != nil && !pooled[e] && wfRefs(c.AppenderRefs)
 //@   let on = enable(c.Level, e.Level)
 //@   let lvl = e.Level
@@ -365,33 +373,39 @@ package log
 //@   ensures[C03:consumed] pooled[e]
 
 //@ func (*ConsoleAppender).Write
+//@   synchronous[C20]
 //@   requires Stdout != nil
 //@   modifies sink
 //@   ensures[C03,C12,C20:one-write] sink == tsnoc(old(sink), 3, ifval(Stdout), sref(b), len(b), content(b))
 
 //@ func (*ConsoleAppender).Append
+//@   synchronous[C20]
 //@   requires c != nil && c.Layout != nil && e != nil && Stdout != nil
 //@   modifies sink, lastBytes
 //@   ensures[C03,C20:one-line] sink == tsnoc(old(sink), 3, ifval(Stdout), sref(lastBytes), len(lastBytes), content(lastBytes))
 
 //@ func (*ConsoleLogger).Append
+//@   synchronous[C20]
 //@   requires c != nil && e != nil && c.ConsoleAppender.Layout != nil && Stdout != nil
 //@   modifies sink, lastBytes
 //@   ensures[C01:console-gate] !enable(c.Level, e.Level) ==> sink == old(sink)
 //@   ensures[C01,C20:console-once] enable(c.Level, e.Level) ==> sink == tsnoc(old(sink), 3, ifval(Stdout), sref(lastBytes), len(lastBytes), content(lastBytes))
 
 //@ func (*FileAppender).Write
+//@   synchronous[C20]
 //@   requires c != nil
 //@   modifies sink
 //@   nopanic[C19]
 //@   ensures[C03,C12,C20:one-write] sink == tsnoc(old(sink), 3, c.file, sref(b), len(b), content(b))
 
 //@ func (*FileAppender).Append
+//@   synchronous[C20]
 //@   requires c != nil && c.Layout != nil && e != nil
 //@   modifies sink, lastBytes
 //@   ensures[C03,C20:one-line] sink == tsnoc(old(sink), 3, c.file, sref(lastBytes), len(lastBytes), content(lastBytes))
 
 //@ func (*FileLogger).Append
+//@   synchronous[C20]
 //@   requires c != nil && e != nil && c.FileAppender.Layout != nil
 //@   modifies sink, lastBytes
 //@   ensures[C01:file-gate] !enable(c.Level, e.Level) ==> sink == old(sink)
@@ -409,6 +423,7 @@ package log
 //@ spec rec fun fanoutAll(c *AppenderRefs, k int, r int, n int, s string, base Trace) Trace = k <= 0 ? base : tsnoc(fanoutAll(c, k-1, r, n, s, base), 2, ifval(c.AppenderRefs[k-1].Appender), r, n, s)
 
 //@ func (*SyncLogger).Write
+//@   synchronous[C20]
 //@   requires c != nil && wfRefs(c.AppenderRefs)
 //@   modifies dlv
 //@   ensures[C12,C20:every-ref-once] dlv == fanoutAll(c.AppenderRefs, len(c.AppenderRefs.AppenderRefs), sref(b), len(b), content(b), old(dlv))
@@ -422,6 +437,7 @@ package log
 //@   ensures[C12:io-writer] n == len(b) && err == nil
 
 //@ func (*AppenderRefs).writeRawToAppenders
+//@   synchronous[C20]
 //@   requires c != nil && wfRefs(c)
 //@   modifies dlv
 //@   ensures[C12,C20:fanout-all] dlv == fanoutAll(c, len(c.AppenderRefs), sref(b), len(b), content(b), old(dlv))
@@ -431,6 +447,7 @@ package log
 // Alternative contract of AppenderRef.Append: callers filter by the reference's range (sendToAppenders
 // does), so the method itself need not repeat the check.
 //@ func (*AppenderRef).Append@B
+//@   synchronous[C20]
 //@   requires c != nil && c.Appender != nil && e != nil
 //@   requires enable(c.Level, e.Level)
 //@   modifies dlv
